@@ -86,7 +86,7 @@ structure St extends FState where
   inner : Nat := 0                -- loop counter of `receive`
   outer : Nat := 0                -- completed calls of `receive` in the task loop
   halted : Bool := false          -- the task returned (or blocks forever in waitNotify)
-  exhausted : Bool := false       -- … because the 10-iteration task loop ran out (stream left unfinished)
+  exhausted : Bool := false       -- … with the stream left unfinished: the task loop's budget ran out and nothing (or a pass that did not reach End) followed
   blocked : Bool := false         -- … because nothing will ever notify
   upstreamReset : Bool := false
   procDone : Bool := false        -- upstreamProcessDone
@@ -157,11 +157,16 @@ def ops (c : Cfg) (d : Bool) : Ops St where
   resetStream s := clean s
   markDirectResponse s := s
 
-/-- `receive` returned phase `p` to the task loop of OnReceive -/
+/-- `receive` returned phase `p` to its caller.  `outer` counts the calls of `receive` that came back into the task loop of
+OnReceive: `outer < taskLoopBound` = the loop calls `receive` again; `outer = taskLoopBound` = the budget is used up, what
+follows the loop runs next (`finishStart`, a step of its own; the `processError` it calls hands the phase of the finishing
+pass back through this function); `outer > taskLoopBound` = the finishing pass is running, and whatever it hands back nobody
+looks at: anything but `End` (the phase `Retry` too — no `doRetry` follows) leaves the stream unfinished (`exhausted`;
+never happens on the repaired code: theorem `never_abandoned`). -/
 def ret (s : St) (p : Nat) : St :=
   if p = End then { s with halted := true, phase := p }
+  else if s.outer > taskLoopBound then { s with halted := true, exhausted := true, phase := p }
   else if p = Retry then { s with halted := true, retried := true, phase := p }   -- doRetry: the request goes upstream again
-  else if s.outer + 1 ≥ taskLoopBound then { s with halted := true, exhausted := true, phase := p }
   else { s with phase := p, inner := 0, outer := s.outer + 1 }
 
 /-- `if p, err := s.processError(id); err != nil { return p }; phase++` -/
@@ -265,9 +270,25 @@ def phaseCase (c : Cfg) (s : St) : St :=
     | some p => afterPE c (filterPass c p s)
     | none => { emit s (.unmodelled s.phase) with halted := true }   -- Retry (needs a retry policy) / out of range
 
-/-- one iteration of the `for i := 0; i <= End-InitPhase; i++` loop of `receive` -/
+/-- [proxy8] what follows the task loop when its budget is used up (regenerated: `Gen.FilterPhase.exhaustFinishes` = the loop
+is followed by `s.onReentryExhausted(id, phase)`; `exhaustHijacks` = its guard `phase == MatchRoute || phase == ChooseHost`;
+`exhaustCode` = api.InternalErrorCode): nothing if the stream is cleaned; when the last pass handed back a pending local
+reply (UpFilter) or the one-way clean up (Oneway) the finishing pass starts there; otherwise `sendHijackReply(500)` and the
+REGENERATED `processError` (`afterPE`) that takes it like every local reply — drops the retry state, clears the again-phase,
+hands back UpFilter, or Oneway for a one-way request — and the finishing pass starts at that phase.  The following steps
+run that pass.  On the code before the repair (`exhaustFinishes = false`) the task returns here: stream neither answered
+nor cleaned. -/
+def finishStart (c : Cfg) (s : St) : St :=
+  if !exhaustFinishes then { s with halted := true, exhausted := true }
+  else if s.cleaned then { s with halted := true }
+  else if !exhaustHijacks s.phase then { s with outer := s.outer + 1 }
+  else afterPE c (liftF s (sendHijack s.toFState exhaustCode false))
+
+/-- one iteration of the `for i := 0; i <= End-InitPhase; i++` loop of `receive` (or, when the task loop's budget is used up,
+what follows that loop) -/
 def step (c : Cfg) (s : St) : St :=
   if s.halted then s
+  else if s.outer = taskLoopBound then finishStart c s
   else if s.inner > receiveLoopBound then ret s End            -- "unexpected phase cycle time"
   else phaseCase c { s with inner := s.inner + 1 }
 
@@ -277,8 +298,9 @@ def run (c : Cfg) : Nat → St → St
 
 def init : St := {}
 
-/-- more steps than the task loop can make: taskLoopBound calls of `receive`, each at most receiveLoopBound+2 iterations -/
-abbrev fuel : Nat := taskLoopBound * (receiveLoopBound + 2)
+/-- more steps than the task can make: taskLoopBound calls of `receive` in the loop, the step after the loop and the finishing
+pass, each at most receiveLoopBound+2 iterations -/
+abbrev fuel : Nat := (taskLoopBound + 2) * (receiveLoopBound + 2)
 
 def final (c : Cfg) : St := run c fuel init
 
